@@ -330,6 +330,8 @@ fn always_evaluated(x: &str, e: &Expr) -> bool {
 /// class that separates "the check of an expect was moved into a branch" from the rest.
 fn expect_use(body: &Expr) -> &'static str {
     let (var, cont): (Option<&str>, &Expr) = match body {
+        // (a plain `let` whose initialiser can abort is the same input class for the inliner)
+        Expr::Let(Pat::Var(x), _, c) => (Some(x.as_str()), c),
         Expr::ExpectTy(x, _, _, c) => (Some(x.as_str()), c),
         Expr::Expect(p, _, c) => (
             match p {
@@ -664,6 +666,33 @@ fn run_strata_states(run: &mut Run, tier: Tier) -> Local {
     merge(out.results)
 }
 
+/// (iv) the untyped family of C06 (`c06u.rs`): every form over every atom, kept when the real
+/// type checker accepts it - programs the typed enumerator never writes (alternative
+/// patterns, annotations at 13 types, record updates, accessors on everything).
+fn run_untyped_family(run: &mut Run, _tier: Tier) -> Local {
+    let cands = crate::c06u::level1();
+    let out = par_indices(
+        cands.len() as u64,
+        16,
+        Some(Duration::from_secs(25)),
+        |_| (crate::driver::Proj::new(), Local::default()),
+        |(base, l), i| {
+            let c = &cands[i as usize];
+            let Some((fin, s0)) = crate::c06u::compile_both(c, base) else { return };
+            let args = crate::c06u::arg_product(&c.body);
+            let shown: Vec<String> = args.iter().map(|a| a.iter().map(vcore::rterm::show_data).collect::<Vec<_>>().join(", ")).collect();
+            check_states(&crate::c06u::source_of(&c.body), &format!("untyped-family:{}", c.form), &s0, &fin, &args, &shown, i % 4 == 0, l);
+        },
+        |(_, l)| l,
+    );
+    if out.capped {
+        run.cap_hit(&format!("untyped family: wall cap after {} of {} candidates", out.done, cands.len()));
+    }
+    let t = merge(out.results);
+    run.set("untyped_family_programs", t.functions);
+    t
+}
+
 pub fn run(tier: Tier, replay: Option<String>) -> i32 {
     run_with_extra(tier, replay, None)
 }
@@ -685,7 +714,8 @@ pub fn run_with_extra(tier: Tier, replay: Option<String>, extra: Option<&dyn Fn(
         None => Local::default(),
     };
     run.set("project_items", c.functions);
-    let t = merge(vec![a, b, c]);
+    let d = if part.is_empty() { run_untyped_family(&mut run, tier) } else { Local::default() };
+    let t = merge(vec![a, b, c, d]);
     run.violations_extend(t.violations);
     for m in t.machinery.iter().take(4) {
         run.machinery_error(m.clone());
